@@ -129,7 +129,8 @@ class Parser:
             if self.accept_kw('READ'):
                 ro = self.expect_kw('ONLY', 'WRITE') == 'ONLY'
             return ('start', ro)
-        if u == 'BEGIN' and not (self.peek().t == T_IDENT and self.peek().u not in ('WORK',) or self.peek().t != T_EOF and self.peek().t != T_OP):
+        if u == 'BEGIN' and (self.peek().t == T_EOF or (self.peek().t == T_OP and self.peek().v == ';')
+                             or self.peek_kw(1, 'WORK')):
             self.adv()
             self.accept_kw('WORK')
             return ('start', False)
@@ -191,16 +192,9 @@ class Parser:
         if u == 'TRUNCATE':
             self.adv()
             self.accept_kw('TABLE')
-            return ('delete', ('table', self.ident(), None), None, None, None)
-        # label: LOOP / WHILE / BEGIN
-        if self.peek().t == T_OP and self.peek().v == ':' or (self.peek().t == T_OP and self.peek().v == ':='):
-            pass
-        if self.peek().t == T_IDENT or self.peek().t == T_OP:
-            # try "label :" -- the lexer has no ':' operator, so labels arrive as ident followed by ':' char
-            pass
+            return ('delete', ('table', self.ident(), None), None, None, None, None)
         self.err(f'unsupported statement {u}')
 
-    # labels: the lexer does not know ':' so handle "name: LOOP" by pre-scan in tokenize stage
     def labelled(self, label):
         u = self.tok.u
         if u == 'LOOP':
@@ -604,7 +598,8 @@ class Parser:
         typ = self.type_spec()
         col = {'name': name, 'type': typ, 'notnull': False, 'default': None, 'has_default': False, 'auto': False,
                'cs': False, 'primary': False}
-        while not self.is_op(',') and not self.is_op(')'):
+        while not self.is_op(',') and not self.is_op(')') and not self.is_op(';') and not self.at_end() \
+                and not self.is_kw('AFTER', 'FIRST', 'ALGORITHM', 'LOCK'):
             if self.accept_kw('NOT'):
                 self.expect_kw('NULL')
                 col['notnull'] = True
@@ -936,13 +931,15 @@ class Parser:
                 self.adv()
                 items.append(('star', t))
             else:
+                start = self.tok.pos
                 e = self.expr()
+                text = self.sql[start:self.tok.pos].strip()
                 alias = None
                 if self.accept_kw('AS'):
                     alias = self.ident() if self.tok.t != T_STR else self.adv().v
                 elif self.tok.t == T_QIDENT or (self.tok.t == T_IDENT and self.tok.u not in RESERVED_STOP):
                     alias = self.ident()
-                items.append(('expr', e, alias))
+                items.append(('expr', e, alias, text))
             if not self.accept_op(','):
                 break
         into = None
@@ -1466,9 +1463,15 @@ class Parser:
         return node
 
 
+_memo = {}
+
+
 def parse(sql):
-    p = Parser(sql)
-    return p.parse_one(), p.n_params
+    hit = _memo.get(sql)
+    if hit is None:
+        p = Parser(sql)
+        hit = _memo[sql] = (p.parse_one(), p.n_params)
+    return hit
 
 
 def parse_script(sql):
